@@ -53,12 +53,16 @@ func nhScenarioMember(rec *nhRec, tid int, seed int64, smType string, store stri
 	}
 	var wg sync.WaitGroup
 	var opid int64
+	var quiet int32 // the background writer pauses (quiet join below)
 	wg.Add(1)
 	go func() {
 		defer wg.Done()
 		wr := rand.New(rand.NewSource(seed*29 + 1))
 		for atomic.LoadInt32(&r.stop) == 0 {
 			time.Sleep(time.Duration(500+wr.Intn(4000)) * time.Microsecond)
+			if atomic.LoadInt32(&quiet) != 0 {
+				continue
+			}
 			nh := r.nhOf(1 + wr.Intn(8))
 			if nh == nil {
 				continue
@@ -200,11 +204,67 @@ func nhScenarioMember(rec *nhRec, tid int, seed int64, smType string, store stri
 		switch {
 		case x < 18 && len(spare) > 0: // new voter
 			id := spare[0]
+			quietJoin := rng.Intn(2) == 0
+			if quietJoin {
+				// nothing is written while the new member joins: the last applied entry is the
+				// membership change itself, the joiner is brought up to date by a snapshot whose index
+				// is ahead of the last user update (on-disk state machines: Index > OnDiskIndex), takes
+				// a snapshot of its own before it applies any update, and restarts
+				atomic.StoreInt32(&quiet, 1)
+				time.Sleep(30 * time.Millisecond)
+			}
 			if request("AddNode", id, c.host(id).addr, idx) == "ok" {
 				spare = spare[1:]
 				voters[id] = true
+				if quietJoin {
+					for _, h := range c.hosts {
+						if nh := r.nhOf(h.id); nh != nil && !removed[h.id] {
+							func() {
+								defer func() { _ = recover() }()
+								ctx, cancel := context.WithTimeout(context.Background(), time.Second)
+								_, _ = nh.SyncRequestSnapshot(ctx, c.shard, SnapshotOption{OverrideCompactionOverhead: true, CompactionOverhead: 0})
+								cancel()
+							}()
+						}
+					}
+				}
 				startJoin(id, "voter")
+				if quietJoin {
+					// one more entry that is not a user update: a membership request that is refused by
+					// the rules (the new member again, at another address) is still an applied entry
+					time.Sleep(20 * time.Millisecond)
+					request("AddNode", id, "elsewhere:1", observe())
+					target := uint64(0)
+					if l := r.leaderHost(); l != 0 {
+						if nh := r.nhOf(l); nh != nil {
+							if n, ok := nh.getShard(c.shard); ok {
+								target = n.sm.GetLastApplied()
+							}
+						}
+					}
+					end := time.Now().Add(3 * time.Second)
+					for time.Now().Before(end) {
+						if nh := r.nhOf(id); nh != nil {
+							if n, ok := nh.getShard(c.shard); ok && target > 0 && n.sm.GetLastApplied() >= target {
+								break
+							}
+						}
+						time.Sleep(5 * time.Millisecond)
+					}
+					if nh := r.nhOf(id); nh != nil {
+						func() {
+							defer func() { _ = recover() }()
+							ctx, cancel := context.WithTimeout(context.Background(), time.Second)
+							_, _ = nh.SyncRequestSnapshot(ctx, c.shard, SnapshotOption{})
+							cancel()
+						}()
+						r.stopGracefully(id)
+						time.Sleep(10 * time.Millisecond)
+						r.restart(id)
+					}
+				}
 			}
+			atomic.StoreInt32(&quiet, 0)
 		case x < 32 && len(spare) > 0: // new non-voting
 			id := spare[0]
 			if request("AddNonVoting", id, c.host(id).addr, idx) == "ok" {
